@@ -343,3 +343,167 @@ Proof.
   rewrite <- E3 by (rewrite ?Lm, ?Ll; auto).
   ring.
 Qed.
+
+(* ------------------------------------------------------------------ solves with scaled vectors *)
+
+Lemma qnth_vmul : forall a b c, length a = length b -> qnth (vmul a b) c == qnth a c * qnth b c.
+Proof.
+  unfold vmul, qnth. induction a; destruct b; simpl; intros; try discriminate.
+  - destruct c; ring.
+  - destruct c; [reflexivity|]. apply IHa. lia.
+Qed.
+
+Lemma qnth_vdiv : forall a b c, length a = length b -> (c < length a)%nat -> qnth (vdiv a b) c == qnth a c / qnth b c.
+Proof.
+  unfold vdiv, qnth. induction a; destruct b; simpl; intros; try discriminate; try lia.
+  destruct c; [reflexivity|]. apply IHa; lia.
+Qed.
+
+Lemma length_vmul : forall a b, length (vmul a b) = Nat.min (length a) (length b).
+Proof. intros. apply length_map2q. Qed.
+Lemma length_vdiv : forall a b, length (vdiv a b) = Nat.min (length a) (length b).
+Proof. intros. apply length_map2q. Qed.
+
+Lemma qnth_prod_fwd_rowpart : forall T n v r, in_shape T n n ->
+    qnth (prod_fwd T n v) r == rowpart T v r.
+Proof.
+  intros. unfold prod_fwd. rewrite sp_fwd_spec.
+  - rewrite qnth_zeros. ring.
+  - intros t I. unfold zeros. rewrite repeat_length. apply H; auto.
+Qed.
+
+Definition nzv (d : list Q) : Prop := forall i, (i < length d)%nat -> ~ qnth d i == 0.
+
+(* row r of Ms applied to x_s  =  (row r of M applied to Du x_s) / dr_r *)
+Lemma rowpart_scale_T : forall T dr du xs r n,
+    in_shape T n n -> length dr = n -> length du = n -> length xs = n -> nzv dr -> (r < n)%nat ->
+    rowpart (scale_T dr du T) xs r == rowpart T (vmul xs du) r / qnth dr r.
+Proof.
+  intros T dr du xs r n SH Ldr Ldu Lxs NZ R. unfold rowpart, scale_T.
+  assert (D : ~ qnth dr r == 0) by (apply NZ; lia).
+  induction T as [|[[r' c] x] T IH]; simpl.
+  - field. exact D.
+  - rewrite IH by (intros t I; apply SH; right; auto).
+    destruct (Nat.eqb_spec r' r).
+    + subst r'. rewrite (qnth_vmul xs du c) by lia. field. exact D.
+    + field. exact D.
+Qed.
+
+(* column c of Ms^T applied to z  =  du_c * (column c of M^T applied to Dr^-1 z) *)
+Lemma colpart_scale_T : forall T dr du z c n,
+    in_shape T n n -> length dr = n -> length du = n -> length z = n -> nzv dr ->
+    rowpart (transpose (scale_T dr du T)) z c == qnth du c * rowpart (transpose T) (vdiv z dr) c.
+Proof.
+  intros T dr du z c n SH Ldr Ldu Lz NZ. unfold rowpart, scale_T, transpose.
+  induction T as [|[[r c'] x] T IH]; simpl.
+  - ring.
+  - rewrite IH by (intros t I; apply SH; right; auto).
+    destruct (SH (r, c', x) (or_introl eq_refl)) as [Br Bc]. simpl in Br, Bc.
+    destruct (Nat.eqb_spec c' c).
+    + subst c'. rewrite (qnth_vdiv z dr r) by lia. field. apply NZ. lia.
+    + ring.
+Qed.
+
+(* FORWARD: a solution of the scaled system, brought back to physical units, solves the physical system *)
+Lemma scaled_solve_fwd : forall T n dr du xs b,
+    in_shape T n n -> length dr = n -> length du = n -> length xs = n -> length b = n -> nzv dr ->
+    (forall r, (r < n)%nat -> qnth (prod_fwd (scale_T dr du T) n xs) r == qnth (vdiv b dr) r) ->
+    forall r, (r < n)%nat -> qnth (prod_fwd T n (vmul xs du)) r == qnth b r.
+Proof.
+  intros T n dr du xs b SH Ldr Ldu Lxs Lb NZ H r R.
+  assert (SHs : in_shape (scale_T dr du T) n n).
+  { intros t I. unfold scale_T in I. apply in_map_iff in I. destruct I as [t0 [E I]]. subst. simpl. apply SH; auto. }
+  specialize (H r R). rewrite qnth_prod_fwd_rowpart in H by auto.
+  rewrite (rowpart_scale_T T dr du xs r n) in H by auto.
+  rewrite qnth_vdiv in H by lia.
+  rewrite qnth_prod_fwd_rowpart by auto.
+  assert (D : ~ qnth dr r == 0) by (apply NZ; lia).
+  apply (Qmult_inj_r _ _ (/ qnth dr r)).
+  - intro Z. apply D. rewrite <- (Qinv_involutive (qnth dr r)). rewrite Z. reflexivity.
+  - exact H.
+Qed.
+
+(* REVERSE, as coded: Ms^T z = Du^2 c_s with c_s = Du^-1 c, then y_s = Dr^-2 z and y = Dr y_s solves M^T y = c *)
+Lemma scaled_solve_rev : forall T n dr du z c,
+    in_shape T n n -> length dr = n -> length du = n -> length z = n -> length c = n -> nzv dr -> nzv du ->
+    (forall k, (k < n)%nat -> qnth (prod_rev (scale_T dr du T) n z) k == qnth (rev_rhs du (vdiv c du)) k) ->
+    forall k, (k < n)%nat -> qnth (prod_rev T n (vmul (rev_sol dr z) dr)) k == qnth c k.
+Proof.
+  intros T n dr du z c SH Ldr Ldu Lz Lc NZr NZu H k K.
+  assert (SHs : in_shape (scale_T dr du T) n n).
+  { intros t I. unfold scale_T in I. apply in_map_iff in I. destruct I as [t0 [E I]]. subst. simpl. apply SH; auto. }
+  specialize (H k K). unfold prod_rev in *. rewrite sp_rev_transpose in *.
+  fold (prod_fwd (transpose (scale_T dr du T)) n z) in H.
+  fold (prod_fwd (transpose T) n (vmul (rev_sol dr z) dr)).
+  rewrite qnth_prod_fwd_rowpart in H by (apply in_shape_transpose; auto).
+  rewrite qnth_prod_fwd_rowpart by (apply in_shape_transpose; auto).
+  rewrite (colpart_scale_T T dr du z k n) in H by auto.
+  assert (Du : ~ qnth du k == 0) by (apply NZu; lia).
+  unfold rev_rhs in H.
+  rewrite qnth_vmul in H by (rewrite length_vmul, length_vdiv; lia).
+  rewrite qnth_vmul in H by (rewrite length_vdiv; lia).
+  rewrite qnth_vdiv in H by lia.
+  (* the vector fed to M^T is Dr^-1 z pointwise *)
+  assert (E : rowpart (transpose T) (vmul (rev_sol dr z) dr) k == rowpart (transpose T) (vdiv z dr) k).
+  { unfold rowpart. apply qsum_ext. intros t I. destruct (Nat.eqb (fst (fst t)) k); [|reflexivity].
+    unfold transpose in I. apply in_map_iff in I. destruct I as [[[r0 c0] x0] [Et I]]. subst t. simpl.
+    destruct (SH _ I) as [Br Bc]. simpl in Br, Bc.
+    assert (Dr : ~ qnth dr r0 == 0) by (apply NZr; lia).
+    unfold rev_sol.
+    pose proof (qnth_vmul (vdiv (vdiv z dr) dr) dr r0 ltac:(rewrite !length_vdiv; lia)) as E1.
+    pose proof (qnth_vdiv (vdiv z dr) dr r0 ltac:(rewrite length_vdiv; lia) ltac:(rewrite length_vdiv; lia)) as E2.
+    rewrite E1, E2. field. exact Dr. }
+  rewrite E.
+  apply (Qmult_inj_l _ _ (qnth du k)); [exact Du|].
+  rewrite H. field. exact Du.
+Qed.
+
+(* the same reverse path with du and dr exchanged does NOT solve the adjoint system (1 x 1 witness) *)
+Lemma swapped_reverse_refuted :
+  let T := [((O, O), 2)] in let dr := [4] in let du := [2] in let c := [1] in
+  (* z solves Ms^T z = Dr^2 c_s *)
+  qnth (prod_rev (scale_T dr du T) 1 [8]) O == qnth (rev_rhs_swapped dr (vdiv c du)) O /\
+  ~ qnth (prod_rev T 1 (vmul (rev_sol_swapped du [8]) dr)) O == qnth c O /\
+  (* whereas the path as coded gives the solution *)
+  qnth (prod_rev (scale_T dr du T) 1 [2]) O == qnth (rev_rhs du (vdiv c du)) O /\
+  qnth (prod_rev T 1 (vmul (rev_sol dr [2]) dr)) O == qnth c O.
+Proof. repeat split; try (vm_compute; reflexivity). intro H. vm_compute in H. discriminate. Qed.
+
+(* fwd and rev scaled solves of the same system are adjoint: <c, x> = <y, b> in physical units *)
+Lemma scaled_solve_adjoint : forall T n dr du xs z b c,
+    in_shape T n n -> length dr = n -> length du = n -> length xs = n -> length z = n ->
+    length b = n -> length c = n -> nzv dr -> nzv du ->
+    (forall r, (r < n)%nat -> qnth (prod_fwd (scale_T dr du T) n xs) r == qnth (vdiv b dr) r) ->
+    (forall k, (k < n)%nat -> qnth (prod_rev (scale_T dr du T) n z) k == qnth (rev_rhs du (vdiv c du)) k) ->
+    dot c (vmul xs du) == dot (vmul (rev_sol dr z) dr) b.
+Proof.
+  intros T n dr du xs z b c SH Ldr Ldu Lxs Lz Lb Lc NZr NZu HF HR.
+  assert (Lx : length (vmul xs du) = n) by (rewrite length_vmul; lia).
+  assert (Ly : length (vmul (rev_sol dr z) dr) = n) by (unfold rev_sol; rewrite length_vmul, !length_vdiv; lia).
+  assert (OUT : forall (a a' : list Q) r, length a = n -> length a' = n -> (n <= r)%nat -> qnth a r == qnth a' r).
+  { intros a a' r La La' R. unfold qnth. rewrite !nth_overflow by lia. reflexivity. }
+  assert (Lpf : forall v, length (prod_fwd T n v) = n).
+  { intro v. unfold prod_fwd. rewrite length_sp_fwd. unfold zeros. apply repeat_length. }
+  assert (Lpr : forall w, length (prod_rev T n w) = n).
+  { intro w. unfold prod_rev. rewrite length_sp_rev. unfold zeros. apply repeat_length. }
+  apply (solve_adjoint T n (vmul xs du) b (vmul (rev_sol dr z) dr) c); auto.
+  - intro r. destruct (Nat.lt_ge_cases r n) as [R|R].
+    + apply (scaled_solve_fwd T n dr du xs b); auto.
+    + apply OUT; auto.
+  - intro k. destruct (Nat.lt_ge_cases k n) as [K|K].
+    + apply (scaled_solve_rev T n dr du z c); auto.
+    + apply OUT; auto.
+Qed.
+
+Example scaled_solve_premises_ok :
+  let T : list triple := [((O, O), 2); ((1%nat, O), 3); ((1%nat, 1%nat), -1)] in
+  in_shape T 2 2 /\ nzv [4; -(1#2)] /\ nzv [2; 8] /\
+  (forall r, (r < 2)%nat -> qnth (prod_fwd (scale_T [4; -(1#2)] [2; 8] T) 2 [1#4; 5#32]) r == qnth (vdiv [1; 1#4] [4; -(1#2)]) r).
+Proof.
+  cbv zeta. repeat split.
+  - destruct H as [H|[H|[H|[]]]]; subst; simpl; lia.
+  - destruct H as [H|[H|[H|[]]]]; subst; simpl; lia.
+  - intros i I. simpl in I. destruct i as [|[|]]; try lia; intro H; vm_compute in H; discriminate.
+  - intros i I. simpl in I. destruct i as [|[|]]; try lia; intro H; vm_compute in H; discriminate.
+  - intros r R. destruct r as [|[|]]; try lia; vm_compute; reflexivity.
+Qed.
